@@ -198,7 +198,7 @@ type P struct {
 	A, B int
 	Lvl  zerolog.Level
 	Err  error
-	Want [8]string
+	Want []string
 }
 
 func here() string { _, f, l, _ := runtime.Caller(1); return f + ":" + strconv.Itoa(l) }
@@ -209,6 +209,29 @@ func w1(p *P, f leaf) { p.Want[1] = here(); f(p) }
 func w2(p *P, f leaf) { p.Want[2] = here(); w1(p, f) }
 func w3(p *P, f leaf) { p.Want[3] = here(); w2(p, f) }
 func w4(p *P, f leaf) { p.Want[4] = here(); w3(p, f) }
+
+//DEEPWRAPPERS
+
+// rec: d wrapper frames by recursion (depths beyond the generated chain): user frame 1 is the
+// f(p) line, user frames 2..d are the recursive call's line, user frame d+1 is the line in runRec.
+// Want is [leaf, f(p) line, recursive call line, runRec line].
+func rec(n int, p *P, f leaf) {
+	if n <= 1 {
+		p.Want[1] = here(); f(p)
+		return
+	}
+	if p.Want[2] == "" { p.Want[2] = here() }; rec(n-1, p, f) // one source line: the recording and the call
+}
+
+func runRec(d int, p *P, f leaf) (panicked bool) {
+	defer func() {
+		if r := recover(); r != nil {
+			panicked = true
+		}
+	}()
+	p.Want[3] = here(); rec(d, p, f)
+	return
+}
 
 func run(d int, p *P, f leaf) (panicked bool) {
 	defer func() {
@@ -227,6 +250,8 @@ func run(d int, p *P, f leaf) (panicked bool) {
 		p.Want[4] = here(); w3(p, f)
 	case 4:
 		p.Want[5] = here(); w4(p, f)
+	default:
+		p.Want[d+1] = here(); deep[d](p, f)
 	}
 	return
 }
@@ -245,6 +270,8 @@ type Case struct {
 	Lvl    int   ` + "`json:\"lvl\"`" + `
 	Err    bool  ` + "`json:\"err\"`" + `
 	Sib    []Sib ` + "`json:\"sib\"`" + `
+	Rec    bool  ` + "`json:\"rec\"`" + `
+	Keep   []int ` + "`json:\"keep\"`" + ` // deep chains: the user frames whose recorded line the driver asks for
 }
 
 // Sib: a sibling logger derived, AFTER the logger under test exists, from one of its ancestors
@@ -258,6 +285,7 @@ type Sib struct {
 type Result struct {
 	ID       int      ` + "`json:\"id\"`" + `
 	Want     []string ` + "`json:\"want\"`" + `
+	WantAt   map[string]string ` + "`json:\"want_at,omitempty\"`" + ` // deep chains: user frame -> recorded line, for the frames asked for and those a caller field names
 	Callers  []string ` + "`json:\"callers\"`" + `
 	Events   int      ` + "`json:\"events\"`" + `
 	Raw      string   ` + "`json:\"raw\"`" + `
@@ -405,24 +433,45 @@ func main() {
 		}
 		zerolog.CallerSkipFrameCount = c.G
 		zlog.Logger = l
-		p := &P{L: &l, W: l, A: c.A, B: c.B, Lvl: zerolog.Level(c.Lvl)}
+		p := &P{L: &l, W: l, A: c.A, B: c.B, Lvl: zerolog.Level(c.Lvl), Want: make([]string, c.D+8)}
+		nWant := c.D + 2
+		doRun := run
+		if c.Rec {
+			nWant, doRun = 4, runRec
+		}
 		if c.Err {
 			p.Err = errors.New("boom")
 		}
 		emit := func(panicked bool) {
-			r := Result{ID: c.ID, Want: append([]string{}, p.Want[:c.D+2]...), Events: cp.events, Raw: string(cp.raw), Panicked: panicked}
+			r := Result{ID: c.ID, Want: append([]string{}, p.Want[:nWant]...), Events: cp.events, Raw: string(cp.raw), Panicked: panicked}
 			r.Callers = callersOf(cp.raw)
 			if r.Callers == nil {
 				r.Callers = []string{}
+			}
+			if len(r.Want) > 16 {
+				at := map[string]string{}
+				for _, i := range append([]int{0, 1, c.D, c.D + 1}, c.Keep...) {
+					if i >= 0 && i < len(r.Want) {
+						at[strconv.Itoa(i)] = r.Want[i]
+					}
+				}
+				for i, w := range r.Want {
+					for _, s := range r.Callers {
+						if w == s {
+							at[strconv.Itoa(i)] = w
+						}
+					}
+				}
+				r.WantAt, r.Want = at, nil
 			}
 			enc.Encode(r)
 		}
 		if fatalMode {
 			cp.onWrite = func() { emit(false); out.Flush() }
-			run(c.D, p, leaves[c.Leaf])
+			doRun(c.D, p, leaves[c.Leaf])
 			continue // not reached for a Fatal statement
 		}
-		panicked := run(c.D, p, leaves[c.Leaf])
+		panicked := doRun(c.D, p, leaves[c.Leaf])
 		emit(panicked)
 	}
 }
@@ -430,9 +479,23 @@ func main() {
 var leaves = []leaf{
 `
 
+// maxChain: the deepest chain of distinct generated wrapper functions (one source line each, so
+// that every frame is told apart); beyond it wrapper depth is made by recursion (rec).
+const maxChain = 1000
+
 func genProgram(ls []leafT) string {
 	var b strings.Builder
-	b.WriteString(progHead)
+	var dw strings.Builder
+	// wrappers 5..maxChain, one source line each (same shape as w1..w4), and the table run() indexes
+	for i := 5; i <= maxChain; i++ {
+		fmt.Fprintf(&dw, "func w%d(p *P, f leaf) { p.Want[%d] = here(); w%d(p, f) }\n", i, i, i-1)
+	}
+	dw.WriteString("\nvar deep = []func(*P, leaf){nil")
+	for i := 1; i <= maxChain; i++ {
+		fmt.Fprintf(&dw, ", w%d", i)
+	}
+	dw.WriteString("}\n")
+	b.WriteString(strings.Replace(progHead, "//DEEPWRAPPERS\n", dw.String(), 1))
 	for _, l := range ls {
 		fmt.Fprintf(&b, "\tfunc(p *P) { p.Want[0] = here(); %s }, // %d %s\n", l.Code, l.Idx, shapeNames[l.Kind])
 	}
@@ -463,7 +526,9 @@ type caseT struct {
 	Lvl    int    `json:"lvl"`
 	Err    bool   `json:"err"`
 	Sib    []sibT `json:"sib"`
-	K      int    `json:"-"` // intended skip: the user frame the property promises
+	Keep   []int  `json:"keep,omitempty"` // deep chains: the frames whose recorded line the program must report (filled by the driver)
+	Rec    bool   `json:"rec,omitempty"`  // wrapper depth by recursion (D > maxChain): frames 2..D share one source line
+	K      int    `json:"-"`              // intended skip: the user frame the property promises
 }
 
 // sibT: a sibling logger derived after the logger under test from one of its ancestors (From =
@@ -477,12 +542,13 @@ type sibT struct {
 }
 
 type resultT struct {
-	ID       int      `json:"id"`
-	Want     []string `json:"want"`
-	Callers  []string `json:"callers"`
-	Events   int      `json:"events"`
-	Raw      string   `json:"raw"`
-	Panicked bool     `json:"panicked"`
+	ID       int               `json:"id"`
+	Want     []string          `json:"want"`
+	WantAt   map[string]string `json:"want_at"`
+	Callers  []string          `json:"callers"`
+	Events   int               `json:"events"`
+	Raw      string            `json:"raw"`
+	Panicked bool              `json:"panicked"`
 }
 
 func sum(xs []int) int {
@@ -563,8 +629,15 @@ func standalone(l leafT, cs caseT) string {
 	b.WriteString("type P struct {\n\tL *zerolog.Logger\n\tW io.Writer\n\tA, B int\n\tLvl zerolog.Level\n\tErr error\n}\n\n")
 	b.WriteString("type skipHook int\n\nfunc (h skipHook) Run(e *zerolog.Event, _ zerolog.Level, _ string) { e.CallerSkipFrame(int(h)) }\n\n")
 	fmt.Fprintf(&b, "func w0(p *P) { %s } // user frame 0\n", l.Code)
-	for i := 1; i <= cs.D; i++ {
-		fmt.Fprintf(&b, "func w%d(p *P) { w%d(p) } // user frame %d\n", i, i-1, i)
+	top := fmt.Sprintf("w%d(p)", cs.D)
+	if cs.D <= 8 {
+		for i := 1; i <= cs.D; i++ {
+			fmt.Fprintf(&b, "func w%d(p *P) { w%d(p) } // user frame %d\n", i, i-1, i)
+		}
+	} else {
+		// (the driver's program has one function per level up to 1000; the recursive helper is the short way to write it)
+		b.WriteString("func wrap(n int, p *P) {\n\tif n == 1 {\n\t\tw0(p) // user frame 1\n\t\treturn\n\t}\n\twrap(n-1, p) // user frames 2..n\n}\n")
+		top = fmt.Sprintf("wrap(%d, p)", cs.D)
 	}
 	b.WriteString("\nfunc main() {\n\tl := zerolog.New(os.Stdout)\n")
 	keep := ""
@@ -602,7 +675,7 @@ func standalone(l leafT, cs caseT) string {
 		errv = "errors.New(\"boom\")"
 	}
 	fmt.Fprintf(&b, "\tp := &P{L: &l, W: l, A: %d, B: %d, Lvl: zerolog.Level(%d), Err: %s}\n", cs.A, cs.B, cs.Lvl, errv)
-	fmt.Fprintf(&b, "\tw%d(p) // every caller field must be file:line of user frame %v\n}\n", cs.D, expectedFrames(l, cs))
+	fmt.Fprintf(&b, "\t%s // user frame %d; every caller field must be file:line of user frame %v\n}\n", top, cs.D+1, expectedFrames(l, cs))
 	return b.String()
 }
 
@@ -694,7 +767,7 @@ func runC19(c *Ctx) {
 		}
 	}
 
-	c.Res.Rule = "one source line per (entry point of the generated table x {Caller(), CallerSkipFrame(a).Caller(), Caller(b), CallerSkipFrame(a).Caller(b), caller hook on the logger, CallerSkipFrame(a) + caller hook} x finalizer) and per Print/Printf/Println/Write/log.Print/log.Printf (Write also through an io.Writer value); each run for every wrapper depth d=0..4 and every k<=d, the skip k realised by each single source in turn (CallerSkipFrame, Caller(k), CallerWithSkipFrameCount(2+k), global CallerSkipFrameCount=2+k, an earlier hook calling CallerSkipFrame) and by a seeded random split over all sources, with other hooks absent/present (struct hook, HookFunc, LevelHook); sibling sweep: parents with 0..7 hooks added one call at a time, child by With().Caller()/CallerWithSkipFrameCount with/without a later Hook, then one or two sibling loggers derived from the parent, the grandparent or the child (caller hook with another count, plain hook, frame-skipping hook, two hooks in one call) and used on their own writer - the child's caller field must be unchanged; Fatal entries in their own process; non-trivial = k>0 or other hooks present; distinct by (statement, d, parameters)"
+	c.Res.Rule = "one source line per (entry point of the generated table x {Caller(), CallerSkipFrame(a).Caller(), Caller(b), CallerSkipFrame(a).Caller(b), caller hook on the logger, CallerSkipFrame(a) + caller hook} x finalizer) and per Print/Printf/Println/Write/log.Print/log.Printf (Write also through an io.Writer value); each run for every wrapper depth d=0..4 and every k<=d, the skip k realised by each single source in turn (CallerSkipFrame, Caller(k), CallerWithSkipFrameCount(2+k), global CallerSkipFrameCount=2+k, an earlier hook calling CallerSkipFrame) and by a seeded random split over all sources, with other hooks absent/present (struct hook, HookFunc, LevelHook); sibling sweep: parents with 0..7 hooks added one call at a time, child by With().Caller()/CallerWithSkipFrameCount with/without a later Hook, then one or two sibling loggers derived from the parent, the grandparent or the child (caller hook with another count, plain hook, frame-skipping hook, two hooks in one call) and used on their own writer - the child's caller field must be unchanged; deep sweep (deep.go): wrapper depths 126..1000 through that many distinct generated helper functions and 32766..65538 through a recursive helper, the skip k at 127/128/129/255/256/257/300/1000 (and 32767/32768/32769/65535/65536/65537 for the recursion) realised by CallerSkipFrame(k), Caller(k), CallerSkipFrame(a).Caller(b) splits, CallerWithSkipFrameCount(2+k), the global, one or two earlier hooks calling CallerSkipFrame and mixtures, always landing on a frame of the run (k <= depth+1); Fatal entries in their own process; non-trivial = k>0 or other hooks present; distinct by (statement, d, parameters)"
 	c.OpenShards("From Verif Require Import Base.Prelude Misc.CallerTypes Gen.CallChains Misc.Caller Harness.C19H.\nFrom Coq Require Import String.\nOpen Scope string_scope.\nOpen Scope list_scope.\nOpen Scope Z_scope.",
 		"c19_case * option (list (option N))", "mismatches c19_run c19_eqb", 1000)
 
@@ -703,6 +776,9 @@ func runC19(c *Ctx) {
 	var fatal []caseT
 	add := func(cs caseT, l leafT) {
 		cs.Leaf = l.Idx
+		if cs.D > 8 && !cs.Rec {
+			cs.Keep = expectedFrames(l, cs)
+		}
 		if l.Fatal {
 			cs.ID = len(fatal)
 			fatal = append(fatal, cs)
@@ -918,6 +994,10 @@ func runC19(c *Ctx) {
 		}
 	}
 	c.Res.ExtraCoverage["sibling_sweep_cases"] = nSib
+	nDeep, nRec := deepSweep(c, leaves, add)
+	c.Res.ExtraCoverage["deep_chain_cases"] = nDeep
+	c.Res.ExtraCoverage["deep_recursion_cases"] = nRec
+	c.Res.ExtraCoverage["deep_chain_max_depth"] = maxChain
 	if c.Replay != "" {
 		var rp struct {
 			Case struct {
@@ -983,12 +1063,44 @@ func runC19(c *Ctx) {
 	handle := func(cs caseT, r resultT, fatalRun bool) {
 		l := leaves[cs.Leaf]
 		exp := expectedFrames(l, cs)
+		if r.Want == nil && r.WantAt != nil {
+			// a deep chain: the program reported the recorded lines of the frames asked for and of those named by a caller field
+			r.Want = make([]string, cs.D+2)
+			for k, v := range r.WantAt {
+				var i int
+				if _, err := fmt.Sscanf(k, "%d", &i); err == nil && i >= 0 && i < len(r.Want) {
+					r.Want[i] = v
+				}
+			}
+		}
 		stmtLine := lineOf[l.Idx]
 		jc := map[string]interface{}{"statement": l.Code, "source": fmt.Sprintf("%s:%d", filepath.Join(pdir, "main.go"), stmtLine),
 			"wrapper_depth": cs.D, "k": cs.K, "a": cs.A, "b": cs.B, "CallerSkipFrameCount": cs.G, "logger_caller": cs.Caller, "n": cs.N,
 			"hooks_before": cs.Pre, "hooks_after": cs.Post, "siblings_derived_later": cs.Sib, "level": cs.Lvl, "err": cs.Err, "own_process": fatalRun,
 			"plan": cs, "standalone": standalone(l, cs),
 			"how_to_replay": "bin/check C19 --replay <this file>; or by hand: build " + pdir + " (its go.mod points at the repository under test) and feed `plan` as one JSON line on stdin"}
+		// wantAt: the recorded file:line of user frame e ("" : outside this run's frames, nothing promised)
+		wantAt := func(e int) string {
+			if e < 0 || e > cs.D+1 {
+				return ""
+			}
+			if !cs.Rec {
+				if e < len(r.Want) {
+					return r.Want[e]
+				}
+				return ""
+			}
+			if len(r.Want) != 4 {
+				return ""
+			}
+			switch {
+			case e <= 1:
+				return r.Want[e]
+			case e <= cs.D:
+				return r.Want[2]
+			}
+			return r.Want[3]
+		}
 		// observed user-frame indices
 		idx := func(s string) (int, bool) {
 			for i, w := range r.Want {
@@ -1018,10 +1130,10 @@ func runC19(c *Ctx) {
 				Desc: fmt.Sprintf("statement `%s`%s: %d caller fields, want %d", l.Code, sibNote(cs), len(r.Callers), len(exp)), Case: jc, Observed: r.Raw, Expected: len(exp)})
 		} else {
 			for i, e := range exp {
-				if e < 0 || e >= len(r.Want) {
+				if wantAt(e) == "" {
 					continue // outside the wrappers of this run: nothing promised
 				}
-				if r.Callers[i] != r.Want[e] {
+				if r.Callers[i] != wantAt(e) {
 					where := root
 					if l.Kind <= shSkipCallerArg && i == 0 {
 						where = "Event.Caller"
@@ -1029,26 +1141,55 @@ func runC19(c *Ctx) {
 					got := "a frame outside the user's chain"
 					if j, ok := idx(r.Callers[i]); ok {
 						got = fmt.Sprintf("user frame %d", j)
+						if cs.Rec && j == 2 {
+							got = fmt.Sprintf("one of the user frames 2..%d (the recursive call)", cs.D)
+						} else if cs.Rec && j == 3 {
+							got = fmt.Sprintf("user frame %d", cs.D+1)
+						}
 					}
 					c.Violate(Violation{Key: "wrong-caller-frame:" + where, Monitor: "caller-names-user-frame",
 						Desc: fmt.Sprintf("`%s` (wrapper depth %d, CallerSkipFrameCount=%d, a=%d, b=%d, logger caller=%s n=%d, earlier hooks add %d%s): caller field %d is %s = %s, want user frame %d = %s",
-							l.Code, cs.D, cs.G, cs.A, cs.B, cs.Caller, cs.N, sum(cs.Pre), sibNote(cs), i, r.Callers[i], got, e, r.Want[e]),
-						Case: jc, Observed: r.Callers, Expected: r.Want[e]})
+							l.Code, cs.D, cs.G, cs.A, cs.B, cs.Caller, cs.N, sum(cs.Pre), sibNote(cs), i, r.Callers[i], got, e, wantAt(e)),
+						Case: jc, Observed: r.Callers, Expected: wantAt(e)})
 				}
 			}
 		}
 		// ---- model case
 		term := fmt.Sprintf("((%s, %s, %d%%nat, %s), Some %s)", CoqZ(int64(cs.G)), coqHooks(cs, flag), cs.D, coqStmt(l, cs), CoqList(obs))
-		jc["want"] = r.Want
+		if len(r.Want) <= 10 {
+			jc["want"] = r.Want
+		} else {
+			// a deep chain: only the recorded lines that matter (user frame -> file:line)
+			w := map[string]string{}
+			for _, e := range append([]int{0, 1, cs.D, cs.D + 1}, exp...) {
+				if e >= 0 && e < len(r.Want) {
+					w[fmt.Sprint(e)] = r.Want[e]
+				}
+			}
+			for _, s := range r.Callers {
+				if j, ok := idx(s); ok {
+					w[fmt.Sprint(j)] = s
+				}
+			}
+			jc["want_by_user_frame"] = w
+		}
+		if cs.Rec {
+			jc["want_rec"] = "[statement, f(p) line = user frame 1, recursive call line = user frames 2..d, caller of the recursion = user frame d+1]"
+		}
 		jc["callers"] = r.Callers
 		jc["expected_frames"] = exp
-		if !fallback {
-			c.AddCase(term, jc)
+		if !fallback && !cs.Rec {
+			c.AddCase(term, jc) // (recursion frames share a source line: the observed index is not determined; monitored only)
 		}
-		key := fmt.Sprintf("%d|%d|%d|%d|%d|%s|%d|%v|%v|%v", l.Idx, cs.D, cs.A, cs.B, cs.G, cs.Caller, cs.N, cs.Pre, cs.Post, cs.Sib)
+		key := fmt.Sprintf("%d|%d|%d|%d|%d|%s|%d|%v|%v|%v|%v", l.Idx, cs.D, cs.A, cs.B, cs.G, cs.Caller, cs.N, cs.Pre, cs.Post, cs.Sib, cs.Rec)
 		c.Count(key, cs.K > 0 || len(cs.Pre)+len(cs.Post) > 0)
 		c.Hist("shape", shapeNames[l.Kind])
-		c.Hist("depth_k", fmt.Sprintf("d%d k%d", cs.D, cs.K))
+		if cs.D <= 4 {
+			c.Hist("depth_k", fmt.Sprintf("d%d k%d", cs.D, cs.K))
+		} else {
+			c.Hist("deep_depth", fmt.Sprintf("d%d", cs.D))
+			c.Hist("deep_k", fmt.Sprintf("k%d", cs.K))
+		}
 		c.Hist("other_hooks", fmt.Sprintf("%d", len(cs.Pre)+len(cs.Post)))
 		c.Hist("logger_caller", cs.Caller)
 		c.Hist("siblings", fmt.Sprint(len(cs.Sib)))
